@@ -5,23 +5,59 @@ from soundevent.geometry.operations import compute_bounds
 MAX_FREQUENCY = 5000000  # checked against soundevent.data.geometries.MAX_FREQUENCY by a table obligation
 
 
-def _flat_points(geometry):
-    """All (time, frequency) points of a coordinate-carrying geometry (native helper only)."""
-    t, c = geometry.type, geometry.coordinates
+def lower1(m, pts, axis):
+    """m is the minimum of pts[i][axis]"""
+    return forall(len(pts), lambda i: m <= pts[i][axis]) and exists(len(pts), lambda i: m == pts[i][axis])
+
+
+def upper1(m, pts, axis):
+    return forall(len(pts), lambda i: m >= pts[i][axis]) and exists(len(pts), lambda i: m == pts[i][axis])
+
+
+def lower2(m, parts, axis):
+    return (forall(len(parts), lambda r: forall(len(parts[r]), lambda k: m <= parts[r][k][axis]))
+            and exists(len(parts), lambda r: exists(len(parts[r]), lambda k: m == parts[r][k][axis])))
+
+
+def upper2(m, parts, axis):
+    return (forall(len(parts), lambda r: forall(len(parts[r]), lambda k: m >= parts[r][k][axis]))
+            and exists(len(parts), lambda r: exists(len(parts[r]), lambda k: m == parts[r][k][axis])))
+
+
+def lower3(m, polys, axis):
+    return (forall(len(polys), lambda q: forall(len(polys[q]), lambda r: forall(len(polys[q][r]), lambda k: m <= polys[q][r][k][axis])))
+            and exists(len(polys), lambda q: exists(len(polys[q]), lambda r: exists(len(polys[q][r]), lambda k: m == polys[q][r][k][axis]))))
+
+
+def upper3(m, polys, axis):
+    return (forall(len(polys), lambda q: forall(len(polys[q]), lambda r: forall(len(polys[q][r]), lambda k: m >= polys[q][r][k][axis])))
+            and exists(len(polys), lambda q: exists(len(polys[q]), lambda r: exists(len(polys[q][r]), lambda k: m == polys[q][r][k][axis]))))
+
+
+def is_bounds(b, geometry):
+    """b = (min time, min frequency, max time, max frequency) over the coordinates of `geometry`;
+    time-only geometries span the full band [0, MAX_FREQUENCY].  (C12: opaque geometries, uninterpreted.)"""
+    t = geometry.type
+    c = geometry.coordinates
+    if t == "TimeStamp":
+        return b[0] == c and b[1] == 0 and b[2] == c and b[3] == MAX_FREQUENCY
+    if t == "TimeInterval":
+        return b[0] == c[0] and b[1] == 0 and b[2] == c[1] and b[3] == MAX_FREQUENCY
+    if t == "BoundingBox":
+        return b[0] == c[0] and b[1] == c[1] and b[2] == c[2] and b[3] == c[3]
     if t == "Point":
-        return [c]
-    if t in ("LineString", "MultiPoint"):
-        return list(c)
-    if t in ("Polygon", "MultiLineString"):
-        return [p for part in c for p in part]
+        return b[0] == c[0] and b[1] == c[1] and b[2] == c[0] and b[3] == c[1]
+    if t == "LineString" or t == "MultiPoint":
+        return lower1(b[0], c, 0) and lower1(b[1], c, 1) and upper1(b[2], c, 0) and upper1(b[3], c, 1)
+    if t == "Polygon" or t == "MultiLineString":
+        return lower2(b[0], c, 0) and lower2(b[1], c, 1) and upper2(b[2], c, 0) and upper2(b[3], c, 1)
     if t == "MultiPolygon":
-        return [p for poly in c for ring in poly for p in ring]
-    raise ValueError(t)
+        return lower3(b[0], c, 0) and lower3(b[1], c, 1) and upper3(b[2], c, 0) and upper3(b[3], c, 1)
+    return False
 
 
 def bounds_of(geometry):
-    """(min time, min frequency, max time, max frequency) over the coordinates; time-only
-    geometries span the full band.  Symbolically (opaque geometries) an uninterpreted function."""
+    """the unique b with is_bounds(b, geometry) (native: computed; C12: uninterpreted function of the geometry)"""
     t, c = geometry.type, geometry.coordinates
     if t == "TimeStamp":
         return (c, 0, c, MAX_FREQUENCY)
@@ -29,8 +65,49 @@ def bounds_of(geometry):
         return (c[0], 0, c[1], MAX_FREQUENCY)
     if t == "BoundingBox":
         return (c[0], c[1], c[2], c[3])
-    pts = _flat_points(geometry)
+    if t == "Point":
+        pts = [c]
+    elif t in ("LineString", "MultiPoint"):
+        pts = list(c)
+    elif t in ("Polygon", "MultiLineString"):
+        pts = [p for part in c for p in part]
+    else:
+        pts = [p for poly in c for ring in poly for p in ring]
     return (min(p[0] for p in pts), min(p[1] for p in pts), max(p[0] for p in pts), max(p[1] for p in pts))
+
+
+def holes_inside_shell_box(rings):
+    """every hole vertex lies in the bounding box of the shell (implied by polygon validity: holes are inside the shell)"""
+    return forall(1, len(rings), lambda r: forall(len(rings[r]), lambda k: (
+        exists(len(rings[0]), lambda i: rings[0][i][0] <= rings[r][k][0])
+        and exists(len(rings[0]), lambda i: rings[0][i][0] >= rings[r][k][0])
+        and exists(len(rings[0]), lambda i: rings[0][i][1] <= rings[r][k][1])
+        and exists(len(rings[0]), lambda i: rings[0][i][1] >= rings[r][k][1]))))
+
+
+def valid_geometry(geometry):
+    """the C03 invariant of a constructed geometry object (precondition of every geometry consumer)"""
+    t = geometry.type
+    c = geometry.coordinates
+    if t == "TimeStamp":
+        return valid_timestamp(c)
+    if t == "TimeInterval":
+        return valid_timeinterval(c)
+    if t == "BoundingBox":
+        return valid_boundingbox(c) and c[0] <= c[2] and c[1] <= c[3]
+    if t == "Point":
+        return valid_point(c)
+    if t == "LineString":
+        return valid_linestring(c) and c[0][0] <= c[len(c) - 1][0]
+    if t == "MultiPoint":
+        return valid_multipoint(c)
+    if t == "Polygon":
+        return valid_polygon(c) and holes_inside_shell_box(c)
+    if t == "MultiLineString":
+        return valid_multilinestring(c)
+    if t == "MultiPolygon":
+        return valid_multipolygon(c) and forall(len(c), lambda q: holes_inside_shell_box(c[q]))
+    return False
 
 
 class ComputeBounds:
@@ -38,8 +115,11 @@ class ComputeBounds:
     types = {"geometry": "Opq:Geometry"}
     result = "Tuple[float, float, float, float]"
 
+    def requires(geometry):
+        return valid_geometry(geometry)
+
     def ensures(geometry, result):
-        return result == bounds_of(geometry) and result[0] <= result[2] and result[1] <= result[3]
+        return is_bounds(result, geometry) and result[0] <= result[2] and result[1] <= result[3]
 
 
 # =================================================================================================
@@ -279,3 +359,153 @@ def get_field(obj, name):
 def class_tag(geometry):
     """the type tag declared by the *class* of the object (native: the class's own default)"""
     return type(geometry).model_fields["type"].default
+
+
+# =================================================================================================
+# C05 — shapely conversion, geometric features, anchor points
+# =================================================================================================
+from soundevent import terms  # noqa: E402
+from soundevent.geometry.conversion import geometry_to_shapely  # noqa: E402
+from soundevent.geometry.features import compute_geometric_features  # noqa: E402
+from soundevent.geometry.operations import get_geometry_point  # noqa: E402
+
+
+def close_ring(ring):
+    """shapely stores rings closed"""
+    return ring if ring[0] == ring[len(ring) - 1] else ring + [ring[0]]
+
+
+def box_ring(a, b, c, d):
+    """exterior of shapely.geometry.box(minx=a, miny=b, maxx=c, maxy=d)"""
+    return [[c, b], [c, d], [a, d], [a, b], [c, b]]
+
+
+def box_like(view, a, b, c, d):
+    """a hole-free polygon whose vertices are corners of [a,c] x [b,d] and reach all four sides"""
+    ring = view[1]
+    return (view[0] == "Polygon" and len(view[2]) == 0 and len(ring) >= 1
+            and forall(len(ring), lambda i: (ring[i][0] == a or ring[i][0] == c) and (ring[i][1] == b or ring[i][1] == d))
+            and exists(len(ring), lambda i: ring[i][0] == a) and exists(len(ring), lambda i: ring[i][0] == c)
+            and exists(len(ring), lambda i: ring[i][1] == b) and exists(len(ring), lambda i: ring[i][1] == d))
+
+
+def expected_view(geometry):
+    """kind and coordinate structure the shapely object must have (every coordinate in its place)"""
+    t = geometry.type
+    c = geometry.coordinates
+    if t == "TimeStamp":
+        return ("LineString", [[c, 0], [c, MAX_FREQUENCY]])
+    if t == "TimeInterval" or t == "BoundingBox":
+        return None  # boxes: see box_like (shapely drops repeated corners of degenerate boxes)
+    if t == "Point":
+        return ("Point", [c[0], c[1]])
+    if t == "LineString":
+        return ("LineString", c)
+    if t == "MultiPoint":
+        return ("MultiPoint", c)
+    if t == "Polygon":
+        return ("Polygon", close_ring(c[0]), [close_ring(h) for h in c[1:]])
+    if t == "MultiLineString":
+        return ("MultiLineString", c)
+    if t == "MultiPolygon":
+        return ("MultiPolygon", [(close_ring(q[0]), [close_ring(h) for h in q[1:]]) for q in c])
+    return None
+
+
+def _pts(seq):
+    return [[float(x) for x in p] for p in seq]
+
+
+def shape_view(shp):
+    """abstraction function: the view of a real shapely object (symbolically: the modelled view)"""
+    k = shp.geom_type
+    if k == "Point":
+        return ("Point", [shp.x, shp.y])
+    if k == "LineString":
+        return ("LineString", _pts(shp.coords))
+    if k == "MultiPoint":
+        return ("MultiPoint", [[g.x, g.y] for g in shp.geoms])
+    if k == "Polygon":
+        return ("Polygon", _pts(shp.exterior.coords), [_pts(r.coords) for r in shp.interiors])
+    if k == "MultiLineString":
+        return ("MultiLineString", [_pts(g.coords) for g in shp.geoms])
+    if k == "MultiPolygon":
+        return ("MultiPolygon", [(_pts(g.exterior.coords), [_pts(r.coords) for r in g.interiors]) for g in shp.geoms])
+    return None
+
+
+class GeometryToShapely:
+    target = "soundevent.geometry.conversion:geometry_to_shapely"
+    types = {"geom": "Opq:Geometry"}
+    result = "Opq:Shape"
+
+    def requires(geom):
+        return valid_geometry(geom)
+
+    def ensures(geom, result):
+        if geom.type == "TimeInterval":
+            return box_like(shape_view(result), geom.coordinates[0], 0, geom.coordinates[1], MAX_FREQUENCY)
+        if geom.type == "BoundingBox":
+            c = geom.coordinates
+            return box_like(shape_view(result), c[0], c[1], c[2], c[3])
+        return shape_view(result) == expected_view(geom)
+
+
+def is_multi(t):
+    return t == "MultiPoint" or t == "MultiLineString" or t == "MultiPolygon"
+
+
+def feature_list(geometry, b, n_parts):
+    """[(term, value)] the property names: duration, low/high frequency, bandwidth (+ number of parts)"""
+    t = geometry.type
+    if t == "TimeStamp" or t == "TimeInterval":
+        return [(terms.duration, b[2] - b[0])]
+    base = [(terms.duration, b[2] - b[0]), (terms.low_freq, b[1]), (terms.high_freq, b[3]), (terms.bandwidth, b[3] - b[1])]
+    if t == "MultiPoint" or t == "MultiLineString" or t == "MultiPolygon":
+        return base + [(terms.num_segments, n_parts)]
+    return base
+
+
+class ComputeGeometricFeatures:
+    target = "soundevent.geometry.features:compute_geometric_features"
+    types = {"geometry": "Opq:Geometry"}
+    result = "List[Obj:soundevent.data.features.Feature]"
+
+    def requires(geometry):
+        return valid_geometry(geometry)
+
+    def ensures(geometry, result):
+        exp = feature_list(geometry, bounds_of(geometry), len(geometry.coordinates) if is_multi(geometry.type) else 1)
+        return len(result) == len(exp) and forall(len(exp), lambda i: result[i].term == exp[i][0] and result[i].value == exp[i][1])
+
+
+def anchor(b, position):
+    """corner / edge midpoint / centre of bounds b for a named position"""
+    if position == "center":
+        return ((b[0] + b[2]) / 2, (b[1] + b[3]) / 2)
+    y, x = position.split("-")
+    tx = b[0] if x == "left" else (b[2] if x == "right" else (b[0] + b[2]) / 2)
+    fy = b[1] if y == "bottom" else (b[3] if y == "top" else (b[1] + b[3]) / 2)
+    return (tx, fy)
+
+
+BOX_POSITIONS = ["bottom-left", "bottom-right", "top-left", "top-right", "center-left", "center-right",
+                 "top-center", "bottom-center", "center"]
+ALL_POSITIONS = BOX_POSITIONS + ["centroid", "point_on_surface"]
+
+
+class GetGeometryPoint:
+    target = "soundevent.geometry.operations:get_geometry_point"
+    types = {"geometry": "Opq:Geometry", "position": "str"}
+    result = "Tuple[float, float]"
+
+    def requires(geometry):
+        return valid_geometry(geometry)
+
+    def raises_ValueError(position):
+        return position not in ALL_POSITIONS
+
+    def ensures(geometry, position, result):
+        if position == "centroid" or position == "point_on_surface":
+            return True  # inside-the-bounds is a property of GEOS: bounded stand-in only
+        return result == anchor(bounds_of(geometry), position)
